@@ -66,8 +66,13 @@ type TxSpec struct {
 	Data     []byte    `json:"data,omitempty"`
 	BadChain bool      `json:"bad_chain,omitempty"`
 	CheckSig bool      `json:"check_sig"`
-	Sign     string    `json:"sign"` // ok | bad (valid signature over another digest) | other (valid signature by another key) | drop-last / drop-first (valid signature by a strict subset of the carried keys)
-	Note     string    `json:"note,omitempty"`
+	// pool scenarios: Same > 0 reuses the transaction built for the Same-th spec of the scenario (1-based, counted
+	// over all blocks; the identical signed transaction, same hash); Via / Batch say how a gossip phase delivers it
+	Same  int    `json:"same,omitempty"`
+	Via   string `json:"via,omitempty"`   // "" AddRemotes | sync AddRemotesSync | locals AddLocals | reorg (block reorganised away)
+	Batch int    `json:"batch,omitempty"` // consecutive equal non-zero values: one call
+	Sign  string `json:"sign"`            // ok | bad (valid signature over another digest) | other (valid signature by another key) | drop-last / drop-first (valid signature by a strict subset of the carried keys)
+	Note  string `json:"note,omitempty"`
 }
 type CtxSpec struct {
 	Height     uint64  `json:"height"`
@@ -84,9 +89,11 @@ type CtxSpec struct {
 type BlockSpec struct {
 	Ctx CtxSpec  `json:"ctx"`
 	Txs []TxSpec `json:"txs"`
+	// pool scenarios: a gossip phase (the transactions are handed to the pool, nothing is processed)
+	Gossip bool `json:"gossip,omitempty"`
 }
 type Scenario struct {
-	Kind   string      `json:"kind"` // proc | worker
+	Kind   string      `json:"kind"` // proc | worker | pool
 	Name   string      `json:"name"`
 	Tracks bool        `json:"tracks"`
 	Keys   [][]byte    `json:"keys"` // private keys
@@ -246,6 +253,15 @@ func buildTxs(s *Scenario, keys []keyInfo, r *hlib.Rng) [][]*builtTx {
 	out := make([][]*builtTx, len(s.Blocks))
 	for bi, blk := range s.Blocks {
 		for _, ts := range blk.Txs {
+			if ts.Same > 0 {
+				cp := *all[ts.Same-1]
+				cp.spec.Same, cp.spec.Via, cp.spec.Batch = ts.Same, ts.Via, ts.Batch
+				// the intrinsic gas depends on the scaling factor of the block the transaction is processed in
+				cp.intrinsic = types.CalculateIntrinsicQiTxGas(cp.tx, blk.Ctx.Scaling)
+				all = append(all, &cp)
+				out[bi] = append(out[bi], &cp)
+				continue
+			}
 			bt := &builtTx{spec: ts}
 			qt := &types.QiTx{ChainID: new(big.Int).Set(chainID), Data: ts.Data}
 			if ts.BadChain {
@@ -379,7 +395,11 @@ type BlockObs struct {
 	OK     bool    `json:"ok"`
 	Ledger []Entry `json:"ledger"`
 	Panic  string  `json:"panic,omitempty"`
-	Err    string  `json:"-"` // first error text: used for the input-distribution buckets only, never compared
+	// pool scenarios: the gossip observation of a gossip phase / the checkSig argument computed from the pool's
+	// senders cache for each transaction of a processed block
+	Gossip   *GossipObs `json:"gossip,omitempty"`
+	CheckSig []bool     `json:"check_sig,omitempty"`
+	Err      string     `json:"-"` // first error text: used for the input-distribution buckets only, never compared
 }
 
 func etxOf(e *types.ExternalTx) Etx {
@@ -429,9 +449,33 @@ func writeBase(db ethdb.Database, base []UtxoSpec) {
 func runProc(db ethdb.Database, s *Scenario, ctxs []*builtCtx, txs [][]*builtTx) (obs []BlockObs) {
 	writeBase(db, s.Base)
 	signer := types.NewSigner(chainID, nodeLoc)
+	var rig *poolRig
+	if s.Kind == "pool" {
+		rig = newPoolRig(db, firstGossipCtx(s, ctxs))
+		defer rig.stop()
+	}
 	for bi := range s.Blocks {
 		c := ctxs[bi]
 		bo := BlockObs{OK: true}
+		if rig != nil && s.Blocks[bi].Gossip {
+			func() {
+				defer func() {
+					if e := recover(); e != nil {
+						bo.Panic = fmt.Sprint(e)
+					}
+				}()
+				g := rig.gossip(txs[bi])
+				bo.Gossip = &g
+			}()
+			bo.Ledger = dumpLedger(db)
+			obs = append(obs, bo)
+			continue
+		}
+		var poolSig []bool
+		if rig != nil {
+			poolSig = rig.checkSigs(txs[bi])
+			bo.CheckSig = poolSig
+		}
 		batch := db.NewBatch()
 		batch.SetPending(s.Tracks)
 		gp := new(types.GasPool).AddGas(c.wo.GasLimit())
@@ -440,7 +484,11 @@ func runProc(db ethdb.Database, s *Scenario, ctxs []*builtCtx, txs [][]*builtTx)
 		ucd := new(core.UtxosCreatedDeleted)
 		added, removed := big.NewInt(0), big.NewInt(0)
 		first := true
-		for _, bt := range txs[bi] {
+		for ti, bt := range txs[bi] {
+			checkSig := bt.spec.CheckSig
+			if poolSig != nil {
+				checkSig = poolSig[ti]
+			}
 			a0, r0 := new(big.Int).Set(added), new(big.Int).Set(removed)
 			nd, nc := len(ucd.UtxosDeleted), len(ucd.UtxosCreatedKeys)
 			var (
@@ -456,7 +504,7 @@ func runProc(db ethdb.Database, s *Scenario, ctxs []*builtCtx, txs [][]*builtTx)
 						bo.Panic = fmt.Sprint(e)
 					}
 				}()
-				fee, etxs, rcpt, err, _ = core.ProcessQiTx(bt.tx, c.chain, bt.spec.CheckSig, first, c.wo, batch, db, gp, &used, signer, nodeLoc, *chainID, c.spec.Scaling, &rl, &pl, ucd, added, removed, false)
+				fee, etxs, rcpt, err, _ = core.ProcessQiTx(bt.tx, c.chain, checkSig, first, c.wo, batch, db, gp, &used, signer, nodeLoc, *chainID, c.spec.Scaling, &rl, &pl, ucd, added, removed, false)
 			}()
 			if err != nil {
 				bo.OK = false
